@@ -42,6 +42,55 @@ def _solve_z3(smt2, timeout_ms, want_model=True, ematching_only=False):
     return str(r), dt, model, reason
 
 
+def _solve_z3_guarded(smt2, timeout_ms):
+    """_solve_z3 in a forked child that is KILLED at a hard deadline: z3's own timeout is not honoured inside some
+    quantifier-instantiation loops (seen with false quantified goals), and a stuck worker would block the whole check."""
+    import pickle, select, signal
+    r, w = os.pipe()
+    pid = os.fork()
+    if pid == 0:
+        try:
+            os.close(r)
+            try:
+                res = _solve_z3(smt2, timeout_ms)
+            except Exception as e:
+                res = ('error', 0.0, None, 'z3 API: %r' % (e,))
+            with os.fdopen(w, 'wb') as f:
+                pickle.dump(res, f)
+        finally:
+            os._exit(0)
+    os.close(w)
+    deadline = timeout_ms / 1000.0 * 1.5 + 10
+    t0 = time.time()
+    data = b''
+    try:
+        while True:
+            left = deadline - (time.time() - t0)
+            if left <= 0:
+                break
+            ready, _, _ = select.select([r], [], [], left)
+            if not ready:
+                break
+            chunk = os.read(r, 1 << 16)
+            if not chunk:
+                break
+            data += chunk
+    finally:
+        os.close(r)
+    try:
+        if data:
+            os.waitpid(pid, 0)
+            return pickle.loads(data)
+    except Exception:
+        pass
+    try:
+        os.kill(pid, signal.SIGKILL)
+        os.waitpid(pid, 0)
+    except OSError:
+        pass
+    return 'unknown', time.time() - t0, None, 'hard deadline: z3 did not return within %.0f s (killed)' % deadline
+
+
 def _solve_cli(cmd, smt2, timeout_s):
     d = tempfile.mkdtemp(prefix='pyvc-', dir=os.environ.get('VERIF_SCRATCH') or None)
     try:
@@ -74,9 +123,11 @@ def solve_one(task):
         except Exception:
             pass
     try:
-        r, dt, model, reason = _solve_z3(smt2, timeout_ms)
+        r, dt, model, reason = _solve_z3_guarded(smt2, timeout_ms)
     except Exception as e:  # parse problem etc.
         return idx, 'error', 'z3', 0.0, None, 'z3 API: %r' % (e,)
+    if r == 'error':
+        return idx, 'error', 'z3', 0.0, None, reason
     total = dt + pre
     if r == 'unsat':
         return idx, 'proved', 'z3-%s' % _z3ver(), total, None, ''
